@@ -25,6 +25,7 @@ structure DSt where
   recs : List Rec := []               -- every scripted record
   script : List Rec := []             -- scripted records the reader has not handed out yet
   m : Runner.St Rec                   -- the model state reached by replaying the implementation's events
+  mustHit : Bool := false             -- header flag: the timing windows of readbar/midbar/midwm must really be hit
   bad : Option String := none         -- first event of the implementation that is not a step of the model
   ticksDue : Nat := 0                 -- ticks performed in the model whose `W` event has not been seen yet
 
@@ -193,11 +194,23 @@ def step (st0 : DSt) (ws : List String) : DSt × String :=
     -- a tick that becomes due in the middle of a read: the watermark follows the whole read (`tick` needs `readBuf = []`)
     | "midwm" :: recs => addRecs st0 recs [Item.wm]
     | _ => st0
-  let st := replay 1000000 st1 evs
+  let isEnd := op == ["end"]
+  let st := if isEnd then replay 1000000 st1 evs else st1
   let echo := match st.bad with
-    | some why => why
-    | none => if evs.isEmpty then "-" else joinWith " " evs
+    | some why => if isEnd then why else "-"
+    | none => if evs.isEmpty || !isEnd then "-" else joinWith " " evs
+  -- `readbar`/`midbar`/`midwm`: did the request really arrive in the intended window (`-hit`) or did the harness fall
+  -- back to the reader-driven order (`-fallback`)? Only a coverage marker (counted in the evidence), so it is echoed —
+  -- except in cases whose header says `musthit`, where the window must have been hit.
+  let marker (name : String) : String :=
+    if st.mustHit then name ++ "-hit"
+    else match impl with
+      | [w] => if w == name ++ "-hit" || w == name ++ "-fallback" then w else name ++ "-hit"
+      | _ => name ++ "-hit"
   match op with
+  | "readbar" :: _ => (st, marker "readbar")
+  | "midbar" :: _ => (st, marker "midbar")
+  | "midwm" :: _ => (st, marker "midwm")
   | ["end"] =>
     let cuts := (cutsOf st.logical 0).map (fun p => s!"{p.1}:{p.2}")
     -- what the replayed model has handed to the operators must be the specification, and the cursors the model
@@ -211,7 +224,8 @@ def step (st0 : DSt) (ws : List String) : DSt × String :=
 def handle (lines : Array String) (i : Nat) (out : Array String) : Nat × Array String :=
   let hdr := if i = 0 then [] else words (lines.getD (i - 1) "")
   let st : DSt := match hdr with
-    | "M" :: "C04" :: n :: k :: ms :: d :: _ => { nOps := natOr n, kgc := natOr k, m := Runner.init (natOr ms) (natOr d != 0) }
+    | "M" :: "C04" :: n :: k :: ms :: d :: rest =>
+      { nOps := natOr n, kgc := natOr k, m := Runner.init (natOr ms) (natOr d != 0), mustHit := rest.contains "musthit" }
     | _ => { nOps := 1, kgc := 1, m := Runner.init 1 false }
   runLines step st lines i out
 
